@@ -610,7 +610,7 @@ mut("c19-not-silent-named-or", "C19", "cmd/gts/select.go",
 
 mut("c19-values-only-reverted", "C19", "feature.go", "\t\t\t\tfor _, v := range vv[1:] {\n", "\t\t\t\tfor _, v := range vv {\n", ["VALUES-ONLY|gts.Qualifier|match#1"], note="the repaired defect, reintroduced")
 mut("c19-values-only-silent-items", "C19", "feature.go",
-    "\t\t\tfor _, vv := range f.Props {\n\t\t\t\tfor _, v := range vv[1:] {\n\t\t\t\t\tif re.MatchString(v) {\n\t\t\t\t\t\treturn true\n\t\t\t\t\t}\n\t\t\t\t}\n\t\t\t}\n",
+    "\t\t\tfor _, vv := range f.Props {\n\t\t\t\tif len(vv) == 0 {\n\t\t\t\t\tcontinue\n\t\t\t\t}\n\t\t\t\tfor _, v := range vv[1:] {\n\t\t\t\t\tif re.MatchString(v) {\n\t\t\t\t\t\treturn true\n\t\t\t\t\t}\n\t\t\t\t}\n\t\t\t}\n",
     "\t\t\tfor _, item := range f.Props.Items() {\n\t\t\t\tif re.MatchString(item.Value) {\n\t\t\t\t\treturn true\n\t\t\t\t}\n\t\t\t}\n", silent=True)
 
 if __name__ == "__main__":
